@@ -5,6 +5,7 @@ import (
 	"encoding/json"
 	"errors"
 	"fmt"
+	"sync"
 	"testing"
 	"time"
 
@@ -150,4 +151,114 @@ func init() {
 		m, _ := c10RunPlay(&c08Rig{}, &c)
 		return m, nil
 	}
+}
+
+// runCalls makes the case's Run calls on the rig's first CPU and records how each one ended.
+type runCallResult struct {
+	err    error
+	states z80.States
+	halt   bool
+}
+
+func c10RunCalls(r *c08Rig, c *c08Case) (out []runCallResult, ok bool) {
+	r.setup(c)
+	for call := 0; call < c.Runs; call++ {
+		ctx, cancel := context.WithTimeout(context.Background(), 20*time.Second)
+		err := r.ca.Run(ctx)
+		cancel()
+		if errors.Is(err, context.DeadlineExceeded) {
+			return out, false
+		}
+		out = append(out, runCallResult{err, r.ca.States, r.ca.HALT})
+	}
+	return out, true
+}
+
+// TestC10RunConcurrent: several hosts drive their own CPUs with Run at the same time, each stopping at its own
+// break points; every call must end as it does when that host is alone, and the race detector must stay silent.
+func TestC10RunConcurrent(t *testing.T) {
+	col := stats.New("C10")
+	col.Sub = "run-concurrent"
+	defer finish(t, col)
+	col.Rule = "run-concurrent: rounds of 2..8 goroutines, each making 2..6 Run calls on its own CPU, machine and break-point set (C08's generator) while the others make theirs; error, registers and HALT after every call " +
+		"must equal the same calls made alone; race detector on; non-trivial = at least two hosts stop at break points; distinct by hash(round)"
+	gen := &c08Rig{}
+	rigs := make([]*c08Rig, 8)
+	for i := range rigs {
+		rigs[i] = &c08Rig{}
+	}
+	rapid.Check(t, func(t *rapid.T) {
+		g := rapid.IntRange(2, 8).Draw(t, "goroutines")
+		cases := make([]c08Case, 0, g)
+		solo := make([][]runCallResult, 0, g)
+		var rh uint64
+		for len(cases) < g {
+			c, pcs, ok := genC08Case(t, gen, col)
+			if !ok {
+				return
+			}
+			c.BPSets, c.InPlace = nil, false
+			if c.Runs < 2 {
+				c.Runs = 2
+			}
+			// does every call return? (a Step-driven scout decides, as in TestC10RunSnapshot)
+			if m, stops := c10RunPlay(gen, &c); m != "" || stops < 0 {
+				col.Label("discarded:program-does-not-stop-or-left-to-run-snapshot")
+				return
+			}
+			res, ok := c10RunCalls(gen, &c)
+			if !ok {
+				return
+			}
+			cases, solo = append(cases, c), append(solo, res)
+			rh = stats.Hash(rh, uint64(len(pcs)), uint64(len(c.BPs)), c.SoupSeed)
+		}
+		msgs := make([]string, g)
+		var wg sync.WaitGroup
+		start := make(chan struct{})
+		for i := 0; i < g; i++ {
+			wg.Add(1)
+			go func(i int) {
+				defer wg.Done()
+				<-start
+				for rep := 0; rep < 3; rep++ {
+					res, ok := c10RunCalls(rigs[i], &cases[i])
+					if !ok || len(res) != len(solo[i]) {
+						msgs[i] = fmt.Sprintf("host %d of %d: a Run call that returns when the host is alone did not return", i, g)
+						return
+					}
+					for k := range res {
+						if res[k].err != solo[i][k].err || res[k].states != solo[i][k].states || res[k].halt != solo[i][k].halt {
+							msgs[i] = fmt.Sprintf("host %d of %d: Run call %d ends with %v at PC=%04x, alone with %v at PC=%04x", i, g, k+1, res[k].err, res[k].states.PC, solo[i][k].err, solo[i][k].states.PC)
+							return
+						}
+					}
+				}
+			}(i)
+		}
+		close(start)
+		wg.Wait()
+		col.Eval(int64(g))
+		for i, m := range msgs {
+			if m != "" {
+				violation(t, "C10", "runsnap", cases[i], "same result as when the host is alone", m)
+			}
+		}
+		stopping := 0
+		for i := range solo {
+			for _, r := range solo[i] {
+				if r.err != nil {
+					stopping++
+					break
+				}
+			}
+		}
+		if stopping >= 2 {
+			col.Distinct(rh)
+			col.Label("two-or-more-hosts-stop-at-break-points")
+			if col.WantSample(rh) {
+				col.Sample(rh, map[string]any{"hosts": g, "first": cases[0]})
+			}
+		}
+	})
 }
